@@ -545,7 +545,7 @@ var (
 	keyN   = ref.SM2N
 )
 
-// keyClasses are the private scalars of DESIGN C06/C07: uniform and edge
+// keyClass returns the i-th of the private scalars of DESIGN C06/C07: uniform and edge
 // values (1, 2, n-2, small, high-byte-zero).
 func keyClass(i int, seed uint64) (*big.Int, string) {
 	switch i % 8 {
@@ -685,6 +685,7 @@ type encOpt struct {
 
 var encOpts = []encOpt{
 	{Name: "nil", Opts: func() *sm2.EncrypterOpts { return nil }, L: layUnc132, LL: layUnc132},
+	{Name: "&EncrypterOpts{}", Opts: func() *sm2.EncrypterOpts { return &sm2.EncrypterOpts{} }, L: layUnc132, LL: layUnc132},
 	{Name: "plain/unc/c1c3c2", Opts: func() *sm2.EncrypterOpts { return sm2.NewPlainEncrypterOpts(sm2.MarshalUncompressed, sm2.C1C3C2) }, L: layUnc132, LL: layUnc132},
 	{Name: "plain/unc/c1c2c3", Opts: func() *sm2.EncrypterOpts { return sm2.NewPlainEncrypterOpts(sm2.MarshalUncompressed, sm2.C1C2C3) }, L: layUnc123, LL: layUnc123},
 	{Name: "plain/cmp/c1c3c2", Opts: func() *sm2.EncrypterOpts { return sm2.NewPlainEncrypterOpts(sm2.MarshalCompressed, sm2.C1C3C2) }, L: layCmp132, LL: layCmp132},
@@ -707,6 +708,7 @@ func (o encOpt) encrypt(rnd io.Reader, pub *ecdsa.PublicKey, msg []byte) ([]byte
 // decOpt enumerates the ways the API offers to decrypt.
 type decOpt struct {
 	Name  string
+	Soft  bool // never required to succeed: no panic, and only the message or an error
 	Order int  // splicing order it announces for plain ciphertexts
 	ASN1  bool // announces the ASN.1 encoding
 	Run   func(priv *sm2.PrivateKey, ct []byte) ([]byte, error)
@@ -726,8 +728,10 @@ var decOpts = []decOpt{
 	{Name: "priv.Decrypt(ASN1DecrypterOpts)", ASN1: true, Run: func(p *sm2.PrivateKey, ct []byte) ([]byte, error) {
 		return p.Decrypt(nil, ct, sm2.ASN1DecrypterOpts)
 	}},
-	// an opts value of another type is ignored (crypto.Decrypter contract: opts is `any`)
-	{Name: "priv.Decrypt(foreign opts)", Run: func(p *sm2.PrivateKey, ct []byte) ([]byte, error) {
+	// an opts value of another type is ignored today (it is not a
+	// DecrypterOpts, so nothing is demanded of it beyond "no panic, no wrong
+	// plaintext")
+	{Name: "priv.Decrypt(foreign opts)", Soft: true, Run: func(p *sm2.PrivateKey, ct []byte) ([]byte, error) {
 		return p.Decrypt(newScripted(1), ct, foreignOpts{})
 	}},
 	{Name: "crypto.Decrypter", Run: func(p *sm2.PrivateKey, ct []byte) ([]byte, error) {
@@ -738,6 +742,9 @@ var decOpts = []decOpt{
 
 // matches reports whether the decrypter option is the one meant for layout l.
 func (o decOpt) matches(l layout) bool {
+	if o.Soft {
+		return false
+	}
 	if l.ASN1 {
 		// nil options auto-detect the SEQUENCE (ParseEnvelopedPrivateKey relies on it)
 		return o.ASN1 || o.Name == "sm2.Decrypt" || o.Name == "priv.Decrypt(nil)" || o.Name == "crypto.Decrypter"
